@@ -211,7 +211,10 @@ def streams_for(kind):
 def raw_args(tokens, form):
     E = _env()
     if form == "string":  # an empty token has to be written with quotes
-        return E["StringArgs"](" ".join(t if t else "''" for t in tokens))
+        # the same tokens in different spellings of the line: blanks, two blanks or a tab between them, '--' bare or quoted
+        sep = (" ", "  ", "\t")[len(tokens) % 3]
+        quoted = sum(len(t) for t in tokens) % 2 == 1
+        return E["StringArgs"](sep.join('"--"' if t == "--" and quoted else t if t else "''" for t in tokens))
     return E["ArgvArgs"](["app"] + list(tokens))
 
 
